@@ -3,6 +3,7 @@ package eng
 import (
 	"context"
 	"fmt"
+	"github.com/olive-io/bpmn/v2/pkg/data"
 	"reflect"
 	"runtime"
 	"sort"
@@ -101,6 +102,13 @@ func ProgLines(proc *schema.Process, condRPN map[string]string) []string {
 							if len(names) > 0 {
 								line += " results=" + strings.Join(names, ",")
 							}
+						}
+						if len(ext.DataOutput) > 0 {
+							var names []string
+							for _, o := range ext.DataOutput {
+								names = append(names, o.Name)
+							}
+							line += " outputs=" + strings.Join(names, ",")
 						}
 						if ext.TaskDefinitionField != nil {
 							line += fmt.Sprintf(" retries=%d", ext.TaskDefinitionField.Retries)
@@ -462,13 +470,22 @@ func (in *Inst) AnswerOK(q *Req, results map[string]int) bool {
 	}
 	sort.Strings(keys)
 	kv := make([]string, 0, len(keys))
+	objs := map[string]any{}
 	for _, k := range keys {
-		res[k] = results[k]
+		if strings.HasPrefix(k, "@") { // a data output: DoWithObjects
+			objs[k[1:]] = results[k]
+		} else {
+			res[k] = results[k]
+		}
 		kv = append(kv, fmt.Sprintf("%s=%d", k, results[k]))
 	}
 	in.Op("answer %s %d ok %s", q.Node, q.Occ, orDash(strings.Join(kv, ",")))
 	q.Done = true
-	ok := DoWithDeadline(q.Trace, 3*time.Second, bpmn.DoWithResults(res))
+	opts := []bpmn.DoOption{bpmn.DoWithResults(res)}
+	if len(objs) > 0 {
+		opts = append(opts, bpmn.DoWithObjects(objs))
+	}
+	ok := DoWithDeadline(q.Trace, 3*time.Second, opts...)
 	if !ok {
 		in.Note("obs ret do %s %d blocked", q.Node, q.Occ)
 	}
@@ -543,6 +560,24 @@ func (in *Inst) Vars() string {
 	parts := make([]string, 0, len(keys))
 	for _, k := range keys {
 		parts = append(parts, fmt.Sprintf("%s=%v", k, m[k].Value()))
+	}
+	// data objects that hold a value, as "@name" (sorted before the variables: '@' < letters)
+	if loc, found := in.Proc.Locator().FindIItemAwareLocator(data.LocatorObject); found {
+		if c, ok := loc.(interface{ Clone() map[string]data.IItem }); ok {
+			objs := c.Clone()
+			names := make([]string, 0, len(objs))
+			for k := range objs {
+				names = append(names, k)
+			}
+			sort.Strings(names)
+			var op []string
+			for _, k := range names {
+				if objs[k] != nil && objs[k].Value() != nil {
+					op = append(op, fmt.Sprintf("@%s=%v", k, objs[k].Value()))
+				}
+			}
+			parts = append(op, parts...)
+		}
 	}
 	return orDash(strings.Join(parts, ","))
 }
